@@ -349,6 +349,22 @@ def frontend_probe(part, _=None):
             if got.shape != want.shape or not (np.abs(got - want).max() <= 1e-12) or not (np.abs(one - np.asarray(single(seed, D))).max() <= 1e-12):
                 part.fail("front-end:%s:probe" % method, "quasirandom(%d, %d, method=%r, seed=%d) does not return the points of the %s generators" % (n, D, method, seed, method), {"kind": "probe"})
             part.outcome(("probe", method))
+        # defaults: a call that names no seed starts at seed 1 (the documented default) for either method, a call that names no method is Sobol
+        for (n, D) in ((5, 3), (1, 1), (16, 2)):
+            part.ev()
+            part.tr(2)
+            try:
+                got_d = np.asarray(S.quasirandom(n, D, method=method))
+                one_d = np.asarray(S.quasirandom(D, method=method))
+                nomethod = np.asarray(S.quasirandom(n, D)) if method == "sobol" else None
+            except Exception as e:
+                part.fail("front-end:%s:defaults-raise" % method, "quasirandom(%d, %d, method=%r) without a seed raised %r" % (n, D, method, e), {"kind": "probe"})
+                continue
+            want_d = np.asarray(batch(1, n, D))
+            if got_d.shape != want_d.shape or not (np.abs(got_d - want_d).max() <= 1e-12) or not (np.abs(one_d - np.asarray(single(1, D))).max() <= 1e-12) \
+                    or (nomethod is not None and not np.array_equal(nomethod, want_d)):
+                part.fail("front-end:%s:defaults" % method, "quasirandom(%d, %d, method=%r) without a seed does not return the points of seeds 1..%d (the documented default seed is 1; the default method Sobol)"
+                          % (n, D, method, n), {"kind": "probe"})
         # degenerate sizes and scalar types: one point, one dimension, a window of one seed; counts / dimension / seed given as numpy
         # integers (np.int64, np.int32, np.uint8 - what len(), shape[1] or an index array hand over) instead of Python ints
         for (n, D, seed) in ((1, 1, 1), (1, 3, 4), (4, 1, 2), (2, 2, 1), (7, 5, 9)):
